@@ -9543,7 +9543,7 @@ impl<'a> Parser<'a> {
                 };
 
                 values.push(value);
-                if self.consume_token(&Token::Comma) {
+                if !self.is_parse_comma_separated_end() {
                     continue;
                 }
 
